@@ -483,7 +483,22 @@ fn word_text() -> BoxedStrategy<Vec<u8>> {
         2 => prop_oneof![0x80u8..=0xff, Just(0u8), Just(0x7fu8)],
         1 => any::<u8>(),
     ];
-    prop_oneof![3 => proptest::collection::vec(ch.clone(), 0..12), 2 => proptest::collection::vec(ch, 0..80)].boxed()
+    // runs of word / non-word bytes whose lengths sit on and around the block sizes a vectorised
+    // scanner would use (16, 32, 64, 128): a word that ends on the last byte of a block, whole
+    // blocks without a word character, a word that starts on the first byte of a block, ...
+    let run_len = prop_oneof![
+        4 => proptest::sample::select(vec![1usize, 2, 15, 16, 17, 31, 32, 33, 59, 63, 64, 65, 127, 128, 129, 192]),
+        2 => 1usize..=8,
+        1 => 1usize..=200,
+    ];
+    let runs = proptest::collection::vec((any::<bool>(), run_len, prop_oneof![Just(b' '), Just(b'-'), Just(b'\n'), Just(0xC3u8), Just(b'@')], prop_oneof![Just(b'a'), Just(b'Z'), Just(b'7'), Just(b'_')]), 1..9).prop_map(|rs| {
+        let mut out = vec![];
+        for (word, n, sep, w) in rs {
+            out.extend(std::iter::repeat(if word { w } else { sep }).take(n));
+        }
+        out
+    });
+    prop_oneof![3 => proptest::collection::vec(ch.clone(), 0..12), 2 => proptest::collection::vec(ch, 0..80), 2 => runs].boxed()
 }
 
 const LINE_PRESETS: &[&str] = &["default", "performance", "memory", "secure", "preserve_endings", "skip_empty"];
